@@ -1739,6 +1739,11 @@ lx_harness! {
             lx.lex_ws();
         }
         lx.pop_mode();
+        // the last token started before the colon may be a comment on a later line than the label
+        // (`%lbl` line feed `/*c*/:`): the token start line is then not the label's line
+        if kani::any() {
+            lx.cur_token_line = super::buffer::verif::line_idx(shadow::line_n() as u32 - 1);
+        }
         let mid = snapshot(&lx, &t);
         kani::assume(mid.pi < t.n && t.ch[mid.pi] == ':');
         // mirror (label shown as already retyped, which is the state iter_token_infos observes)
